@@ -136,10 +136,20 @@ def body(case, ctx: Ctx):
                     exp = ("reject", "cash")
                 elif not is_buy and held[0] < amt:
                     exp = ("reject", "not held")
+            sig = f"{kind}.{mode[0]}"
             if margin < EPS:
                 labels.add("boundary.skipped")
+                if ok:
+                    # whichever side of the boundary the order fell on, what was credited must be what was filled and paid
+                    labels.add("boundary.accepted")
+                    orders, got_fee = ret
+                    filled = sum((dd(o.amount) for o in orders), Decimal(0))
+                    prem = sum((dd(o.price) * dd(o.amount) for o in orders), Decimal(0))
+                    d_pos = pos_snapshot(m).get(name, (Decimal(0),))[0] - held[0]
+                    ctx.check(d_pos == (filled if is_buy else -filled), f"{sig}.boundary.position_vs_fills", lambda: f"{kind} {amount} {name} mode {mode}: position changed by {d_pos} but the fills {[(str(o.price), str(o.amount)) for o in orders]} add up to {filled}", case)
+                    exp_cash = cash0 - prem - got_fee if is_buy else cash0 + prem - got_fee
+                    ctx.check(m.balance == exp_cash, f"{sig}.boundary.cash_vs_fills", lambda: f"{kind} {amount} {name} mode {mode}: cash {cash0} -> {m.balance}, fills are worth {prem}, fee {got_fee}", case)
                 continue
-            sig = f"{kind}.{mode[0]}"
             if exp[0] == "reject":
                 why = exp[1]
                 labels.add({"insufficient depth": "reject.depth", "level too small": "reject.depth", "cash": "reject.cash", "not held": "reject.not_held"}.get(why, "reject.other"))
